@@ -168,6 +168,13 @@ func c05Shapes() []c05shape {
 			Values: []any{gen.S{"role": "admin", "id": 7.0}, gen.S{"role": "admin"}, gen.S{"id": 7.0, "ok": true}}},
 		{Name: "object-constrained", Kind: "object", Schema: gen.S{"type": "object", "properties": gen.S{"role": gen.S{"type": "string", "enum": gen.Arr("admin", "user")}, "id": gen.S{"type": "integer", "minimum": 1.0}}, "maxProperties": 1.0},
 			Values: []any{gen.S{"role": "admin"}, gen.S{"role": "root"}, gen.S{"id": 0.0}, gen.S{"id": 4.0}, gen.S{"role": "user", "id": 4.0}}},
+		{Name: "int32-enum", Kind: "prim", Schema: gen.S{"type": "integer", "format": "int32", "enum": gen.Arr(1.0, 2.0)}, Values: []any{1.0, 2.0, 3.0}},
+		{Name: "int64-enum", Kind: "prim", Schema: gen.S{"type": "integer", "format": "int64", "enum": gen.Arr(1.0, 9007199254740991.0)}, Values: []any{1.0, 9007199254740991.0, 3.0}},
+		{Name: "number-float-enum", Kind: "prim", Schema: gen.S{"type": "number", "format": "float", "enum": gen.Arr(1.5, 2.0)}, Values: []any{1.5, 2.0, 2.5}},
+		{Name: "object-declared-and-additional", Kind: "object", Schema: gen.S{"type": "object", "properties": gen.S{"id": intS, "role": strS}, "additionalProperties": gen.S{"type": "boolean"}},
+			Values: []any{gen.S{"id": 7.0}, gen.S{"id": 7.0, "role": "r"}, gen.S{"id": 7.0, "extra": true}, gen.S{"role": "r", "extra": false, "more": true}}},
+		{Name: "deep-declared-and-additional", Kind: "deep", Schema: gen.S{"type": "object", "properties": gen.S{"id": intS, "role": strS, "o": gen.S{"type": "object", "properties": gen.S{"n": intS}, "additionalProperties": gen.S{"type": "string"}}}, "additionalProperties": gen.S{"type": "boolean"}},
+			Values: []any{gen.S{"id": 7.0}, gen.S{"id": 7.0, "role": "r"}, gen.S{"id": 7.0, "extra": true}, gen.S{"o": gen.S{"n": 1.0, "x": "y"}}, gen.S{"role": "r", "extra": false, "o": gen.S{"n": 2.0}}}},
 		{Name: "deep-nested", Kind: "deep", Schema: gen.S{"type": "object", "properties": gen.S{
 			"s": strS, "n": intS,
 			"o":    gen.S{"type": "object", "properties": gen.S{"b": intS, "c": gen.S{"type": "object", "properties": gen.S{"d": boolS}}}},
@@ -476,6 +483,11 @@ func c05Group(c *core.Ctx, cell c05cell, sh c05shape, required bool, qname strin
 		}
 	}
 	for _, nb := range []bool{false, true} {
+		if _, open := sh.Schema["additionalProperties"].(gen.S); nb && open && cell.In == "query" && style == "form" && explode {
+			// an exploded form object that allows additional properties takes every query parameter as one of them:
+			// "unrelated" neighbours do not exist for it
+			continue
+		}
 		neighbours = nb
 		for _, v := range sh.Values {
 			for _, ord := range orders {
@@ -491,6 +503,9 @@ func c05Group(c *core.Ctx, cell c05cell, sh c05shape, required bool, qname strin
 	// PRNG-drawn values of the shape
 	r := c.Rng("values/" + cell.String() + "/" + sh.Name + "/" + qname)
 	for i, n := 0, c.Pick(6, 4000); i < n; i++ {
+		if strings.HasSuffix(sh.Name, "-declared-and-additional") {
+			break // (the value generator draws property names of the other object shapes)
+		}
 		if v := c05RandomValue(r, sh); v != nil {
 			run(v, nil, true, false)
 		}
